@@ -71,6 +71,8 @@ type workload struct {
 	invalid   map[chainhash.Hash]bool
 	prune     uint64
 	blockFile uint32 // max block file size (0 = default)
+	// invAfter[i]: after delivery i the operator invalidates this block
+	invAfter map[int]*lab.Blk
 }
 
 func mkWorkloads(long bool) []*workload {
@@ -109,6 +111,11 @@ func mkWorkloads(long bool) []*workload {
 	}
 	w.Universe = lab.Universe(w.All)
 	wl = append(wl, &workload{Name: "prune-long", w: w, order: o4, prune: 1400, blockFile: 700})
+	// 6. the operator invalidates a block of the active chain (tip moves back),
+	// then the other branch arrives and takes over
+	o5 := seq(A[0], A[1], A[2], A[3], A[4])
+	o5 = append(o5, B[:4]...)
+	wl = append(wl, &workload{Name: "invalidate", w: w, order: o5, invAfter: map[int]*lab.Blk{4: A[3]}})
 	return wl
 }
 
@@ -172,6 +179,12 @@ func (r *run) deliver(onTip func(tip chainhash.Hash)) (crashed bool, problem str
 				}
 			}
 		next:
+			if x := r.wl.invAfter[i]; x != nil {
+				if err := r.c.BC.InvalidateBlock(&x.Hash); err != nil {
+					problem = fmt.Sprintf("InvalidateBlock(%s): %v", x.Name, err)
+					return
+				}
+			}
 			if onTip != nil {
 				onTip(r.c.BC.BestSnapshot().Hash)
 			}
@@ -612,7 +625,7 @@ func main() {
 			// a later, independent crash of the recovered node (pruning workloads:
 			// what is deleted then depends on what the recovery left in memory)
 			n3 := 0
-			if wl.prune != 0 && (long || cache == 64<<20) {
+			if wl.prune != 0 && (long || (cache == 64<<20 && wl.Name == "prune-long")) {
 				ev.Par(base.commits, runtime.NumCPU(), func(k int) {
 					for m := 0; ; m++ {
 						if r.Expired() {
